@@ -202,12 +202,17 @@ def gen_text(rng, ast, packages):
     return "".join(l + "\n" for l in lines)
 
 
+_LINK = {"n": 0}
+
+
 def compare_sequence(ast, packages, texts):
     """-> list of (ref, [(sig, detail)]) per text; one schema object serves all loads."""
     ZConfig = loadcheck.zc()
     comp = compose.Composed()
     comp.main_xml = gen.render_schema(ast)
     comp.packages = {p: {"component.xml": gen.render_schema(a, root="component")} for p, a in packages.items()}
+    _LINK["n"] += 1
+    comp.link_packages = _LINK["n"] % 3 == 0       # package directories that are symbolic links
     results = []
     try:
         main = comp.materialise()
